@@ -414,14 +414,12 @@ impl TryFrom<&Constraint> for PerVisibleRangeConstraints {
                     ElementOrSetOperation::SetOperation(s) => {
                         let mut v: PerVisibleRangeConstraints =
                             fold_constraint_set(s, None, true)?.as_ref().try_into()?;
-                        if s.operator == SetOperator::Intersection
-                            && (matches!(s.base, SubtypeElements::SizeConstraint(_))
-                                | matches!(
-                                    *s.operant,
-                                    ElementOrSetOperation::Element(
-                                        SubtypeElements::SizeConstraint(_)
-                                    )
-                                ))
+                        // whatever the operator: bounds folded from SIZE constraints are size bounds
+                        if matches!(s.base, SubtypeElements::SizeConstraint(_))
+                            | matches!(
+                                *s.operant,
+                                ElementOrSetOperation::Element(SubtypeElements::SizeConstraint(_))
+                            )
                         {
                             v.is_size_constraint = true;
                         }
@@ -581,9 +579,11 @@ fn fold_constraint_set(
     char_set: Option<&BTreeMap<usize, char>>,
     range_constraint: bool,
 ) -> Result<Option<SubtypeElements>, GrammarError> {
-    let folded_operant = match &*set.operant {
-        ElementOrSetOperation::Element(e) => e.per_visible().then(|| e.clone()),
-        ElementOrSetOperation::SetOperation(s) => {
+    let folded_operant = match (&set.operator, &*set.operant) {
+        // X.691 10.3.21: an EXCEPT clause and the value set that follows it are ignored
+        (SetOperator::Except, _) => None,
+        (_, ElementOrSetOperation::Element(e)) => e.per_visible().then(|| e.clone()),
+        (_, ElementOrSetOperation::SetOperation(s)) => {
             fold_constraint_set(s, char_set, range_constraint)?
         }
     };
